@@ -393,7 +393,7 @@ SYNTHETIC = [
     ('[C:1][N:2][N:4]', '[C:1]', 'two adjacent deleted atoms'),
     ('[C;M:1][O:2][C:3]', '[A:2]', 'masked atom stays although absent from the replacement'),
     ('[C:1][O;M:2][C:3]', '[A:1]', 'masked atom between kept and deleted'),
-    ('[c:1][Cl,Br,I:2]', '[A:1][C:3]#[N:4]', 'replace halogen: delete + new atoms'),
+    ('[C;a:1][Cl,Br,I:2]', '[A:1][C:3]#[N:4]', 'replace halogen: delete + new atoms'),
     ('[C:1](=[O:2])[O;D1:3]', '[A:1](=[A:2])[A:3][C:4]', 'esterification-like, three matched atoms'),
     ('[C:1][C:2]', '[A:1].[A:2]', 'bond deletion between kept atoms'),
     ('[C:1][N:2]', '[A:1][A;h0;+:2]', 'hydrogen count clause in the replacement'),
@@ -707,7 +707,15 @@ def search_templates(ck):
                 continue
             hits += 1
             prods = list(t_raw(m))
-            prods_def = list(t_def(m))
+            try:
+                prods_def = list(t_def(m))
+            except Exception as e:
+                if tname.startswith('deprotection'):
+                    ck.counterexample(f'raises:{tname}:{smi}', f'built-in template raises {type(e).__name__} on a corpus molecule', {'smiles': smi, 'template': tname},
+                                      f'{type(e).__name__}: {e}', 'products', 'no exception expected')
+                else:   # an ad hoc template may break an aromatic ring: kekule refuses, not a property violation
+                    ck.count('search:synthetic-template-raises-in-ring-fixing:' + type(e).__name__)
+                prods_def = [None] * len(maps)
             if len(prods) != len(maps) or len(prods_def) != len(maps):
                 ck.counterexample(f'one-product-per-match:{tname}:{smi}', 'number of products differs from the number of matches',
                                   {'smiles': smi, 'template': tname}, len(prods), len(maps), 'get_mapping')
@@ -717,6 +725,8 @@ def search_templates(ck):
                 n_prod += 1
                 ck.case(('apply', tname, smi, tuple(sorted(mp.items()))), nontrivial=True)
                 check_product(ck, t_raw, m, mp, pr, smi, tname)
+                if prd is None:
+                    continue
                 check_product(ck, t_def, m, mp, prd, smi, tname, frame=False)
                 inv = prd.check_valence()
                 if inv and tname.startswith('deprotection'):
@@ -726,9 +736,14 @@ def search_templates(ck):
                 elif inv:
                     ck.count('search:synthetic-template-invalid-valence (not a property violation: template is ad hoc)')
             # product set does not depend on the numbering of the reactant
+            if prods_def[0] is None:
+                continue
             m2 = corpus.renumber(m, rng)
-            a = sorted(str(x) for x in t_def(m))
-            c = sorted(str(x) for x in t_def(m2))
+            try:
+                a = sorted(str(x) for x in t_def(m))
+                c = sorted(str(x) for x in t_def(m2))
+            except Exception:
+                continue
             if set(a) != set(c) and not known_explains(t_def, m, m2):
                 ck.counterexample(f'renumbering:{tname}:{smi}', 'product set depends on the atom numbering of the reactant',
                                   {'smiles': smi, 'template': tname, 'numbering': list(m2._atoms)}, c, a, 'same molecule renumbered')
@@ -755,9 +770,9 @@ def search_identity(ck):
     from chython import smiles, smarts
     from chython.reactor import Transformer
     quick = ck.tier == 'quick'
-    pats = ['[C:1][O:2]', '[C:1]=[O:2]', '[C:1][N:2]', '[C:1][C:2][C:3]', '[c:1]:[c:2]', '[C:1]#[N:2]', '[C:1](=[O:2])[O:3]', '[N+:1][O-:2]',
-            '[C:1][S:2]', '[C;M:1][O:2]', '[c:1][Cl:2]', '[C:1][F:2]']
-    anyrep = {'[C:1][O:2]': '[A:1][A:2]', '[C:1]=[O:2]': '[A:1]=[A:2]', '[C:1][C:2][C:3]': '[A:1][A:2][A:3]', '[c:1]:[c:2]': '[A:1]:[A:2]',
+    pats = ['[C:1][O:2]', '[C:1]=[O:2]', '[C:1][N:2]', '[C:1][C:2][C:3]', '[C;a:1]:[C;a:2]', '[C:1]#[N:2]', '[C:1](=[O:2])[O:3]', '[N+:1][O-:2]',
+            '[C:1][S:2]', '[C;M:1][O:2]', '[C;a:1][Cl:2]', '[C:1][F:2]']
+    anyrep = {'[C:1][O:2]': '[A:1][A:2]', '[C:1]=[O:2]': '[A:1]=[A:2]', '[C:1][C:2][C:3]': '[A:1][A:2][A:3]', '[C;a:1]:[C;a:2]': '[A:1]:[A:2]',
               '[C;M:1][O:2]': '[A:2]'}
     pool = BRIDGED + ['C[C@H](N)C(=O)O', 'C/C=C/CO', 'F/C=C\\Cl', 'C[C@@H]1CC[C@H](O)CC1', 'OC[C@H]1O[C@@H](O)[C@H](O)[C@@H](O)[C@@H]1O',
                       'CC=[C@]=CCO', 'C[N+](C)(C)CC(=O)[O-]', '[13CH3]CO', 'C[CH]O |^1:1|'] + \
@@ -782,16 +797,25 @@ def search_identity(ck):
                     if not prods:
                         continue
                     hits += 1
+                    ref = m
+                    if not raw:
+                        # _patcher ends with kekule() + thiele(): compare with the input brought to the same ring form
+                        ref = m.copy()
+                        try:
+                            ref.kekule()
+                            ref.thiele()
+                        except Exception:
+                            continue
                     for pr in prods:
                         n += 1
                         ck.case(('identity', pat, rep, raw, smi, n), nontrivial=True)
                         ck.count('search:identity-template')
-                        same = pr == m and struct_sig(pr) == struct_sig(m)
-                        stereo_same = ({k: a.stereo for k, a in pr.atoms()} == {k: a.stereo for k, a in m.atoms()} and
-                                       {(min(a, c), max(a, c)): bd.stereo for a, c, bd in pr.bonds()} == {(min(a, c), max(a, c)): bd.stereo for a, c, bd in m.bonds()})
-                        if not same or not stereo_same:
-                            ck.counterexample(f'identity:{pat}>>{rep}:{raw}:{smi}', 'identity template does not return the input structure' + ('' if same else ' (stereo labels differ)'),
-                                              {'smiles': smi, 'pattern': pat, 'replacement': rep, 'fix_aromatic_rings': not raw}, str(pr), str(m), '== and atom-by-atom comparison with the input',
+                        # stereo labels are relative to the neighbour order, which the patcher changes: they are compared
+                        # through == / the canonical string, never as raw attribute values
+                        if not (pr == ref and str(pr) == str(ref) and struct_sig(pr) == struct_sig(ref)):
+                            ck.counterexample(f'identity:{pat}>>{rep}:{raw}:{smi}', 'identity template does not return the input structure',
+                                              {'smiles': smi, 'pattern': pat, 'replacement': rep, 'fix_aromatic_rings': not raw}, str(pr), str(ref),
+                                              '==, canonical string and atom-by-atom comparison with the input',
                                               replay_py=f"from chython import smiles, smarts\nfrom chython.reactor import Transformer\nm = smiles({smi!r})\nprint([(str(x), x == m) for x in Transformer(smarts({pat!r}), smarts({rep!r}), fix_aromatic_rings={not raw})(m)], str(m))")
 
 
